@@ -49,6 +49,8 @@ MonInit(protos) ==
    snapApp  |-> [n \in Nodes |-> FALSE],    \* at proof_begin the application held no connection
    snapDown |-> [n \in Nodes |-> {}],       \* protocols that held no connection at proof_begin
    snapIdle |-> [n \in Nodes |-> FALSE],    \* at redial_begin the application held no connection
+   owed |-> [n \in Nodes |-> {}],          \* unit level: ids of accepted open_substream requests not yet answered
+   ans  |-> [n \in Nodes |-> {}],          \* ... and of those answered (SubstreamOpened / SubstreamOpenFailure)
    taint |-> {},
    bad |-> "", badn |-> ""]
 
@@ -59,7 +61,8 @@ Judged(M, n) == M.alive[n] /\ n \notin M.taint
 MonEv(M, r) ==
   IF r.e = "kill" THEN [M EXCEPT !.alive[r.n] = FALSE]
   ELSE IF r.e \notin {"app_est", "app_closed", "p_est", "p_closed", "p_exit", "p_none", "pause", "resume",
-                      "proof_begin", "proof_ok", "quiesce", "redial_begin", "redial", "newconn", "snap"} THEN M
+                      "proof_begin", "proof_ok", "quiesce", "redial_begin", "redial", "newconn", "snap",
+                      "open_call", "sub_out", "sub_fail", "answers_due"} THEN M
   ELSE IF ~Judged(M, r.n) THEN M
   ELSE LET n == r.n IN
   CASE r.e = "app_est" ->
@@ -74,7 +77,17 @@ MonEv(M, r) ==
          ELSE [M EXCEPT !.up[n][r.q] = TRUE, !.snapDown[n] = @ \ {r.q}]
     [] r.e = "p_closed" ->
          IF ~M.up[n][r.q] THEN Fail(M, n, "protocol told closed without a matching established")
-         ELSE [M EXCEPT !.up[n][r.q] = FALSE]
+         ELSE [M EXCEPT !.up[n][r.q] = FALSE, !.owed[n] = {}]    \* the connection ended: open requests are excused
+    \* unit level (connection harness), C08: an accepted open_substream id is answered exactly once while the
+    \* connection stays up
+    [] r.e = "open_call" -> IF r.id >= 0 THEN [M EXCEPT !.owed[n] = @ \cup {r.id}] ELSE M
+    [] r.e \in {"sub_out", "sub_fail"} ->
+         IF r.id \in M.ans[n] THEN Fail(M, n, "substream open request answered twice")
+         ELSE IF r.id \in M.owed[n] THEN [M EXCEPT !.owed[n] = @ \ {r.id}, !.ans[n] = @ \cup {r.id}]
+         ELSE M     \* no recorded open_call for this id (real-network logs do not record the calls)
+    [] r.e = "answers_due" ->
+         IF r.alive /\ M.owed[n] # {} THEN Fail([M EXCEPT !.owed[n] = {}], n, "accepted open request neither opened nor failed while the connection stayed up")
+         ELSE M
     [] r.e \in {"p_exit", "p_none"} -> [M EXCEPT !.run[n] = @ \ {r.q}, !.snapDown[n] = @ \ {r.q}]
     [] r.e = "pause" -> [M EXCEPT !.paused[n] = @ \cup {r.q}]
     [] r.e = "resume" -> [M EXCEPT !.paused[n] = @ \ {r.q}]
